@@ -184,22 +184,24 @@ def run(ctx, prop):
     reads = {"C02": 4, "C03": 4, "C04": 24, "C20": 6}[prop]
     if prop == "C02":
         drive(ctx, prop, "decision", ["-mode", "decision", "-in", decisions(ctx)])
-        drive(ctx, prop, "writer", ["-mode", "writer", "-seed", s, "-n", 300 if quick else 4000, "-reads", reads, "-sessions", sessions(ctx), "-nsess", 4], replay_workers=8)
+        drive(ctx, prop, "writer", ["-mode", "writer", "-seed", s, "-n", 300 if quick else 2000, "-reads", reads, "-sessions", sessions(ctx), "-nsess", 4], replay_workers=8)
         drive(ctx, prop, "exh", ["-mode", "exh", "-seed", s, "-chunks", 2, "-msgs", 2, "-times", 3, "-stride", 8 if quick else 1, "-reads", reads])
     elif prop in ("C03", "C04"):
         if prop == "C03":
             # the decision table (incl. Readers over sources that cannot seek): a time order is served through the index or refused
             drive(ctx, prop, "decision", ["-mode", "decision", "-in", decisions(ctx)])
         drive(ctx, prop, "replay", ["-mode", "rand", "-seed", s + 7, "-n", 12, "-reads", reads], replay_workers=8)
-        drive(ctx, prop, "exh", ["-mode", "exh", "-seed", s, "-chunks", 2, "-msgs", 2, "-times", 4, "-stride", 6 if quick else 1, "-reads", reads])
+        drive(ctx, prop, "exh", ["-mode", "exh", "-seed", s, "-chunks", 2, "-msgs", 2, "-times", 4, "-stride", 6 if quick else (1 if prop == "C03" else 3), "-reads", reads])
         if prop == "C03":
             # the real iterator on the file space of Indexed_span3.cfg (one channel, 3 chunks, 4 times): every 8th file / all
-            drive(ctx, prop, "span3", ["-mode", "exh", "-seed", s, "-chunks", 3, "-msgs", 2, "-times", 4, "-chans", 1, "-stride", 8 if quick else 1, "-reads", 0])
+            drive(ctx, prop, "span3", ["-mode", "exh", "-seed", s, "-chunks", 3, "-msgs", 2, "-times", 4, "-chans", 1, "-stride", 8 if quick else 2, "-reads", 0])
         if not quick:
-            drive(ctx, prop, "exh3", ["-mode", "exh", "-seed", s, "-chunks", 3, "-msgs", 2, "-times", 3, "-stride", 4, "-reads", reads])
-            drive(ctx, prop, "exh33", ["-mode", "exh", "-seed", s, "-chunks", 3, "-msgs", 3, "-times", 4, "-stride", 6000, "-reads", reads])
-        drive(ctx, prop, "rand", ["-mode", "rand", "-seed", s, "-n", 80 if quick else 1500, "-reads", reads])
-        drive(ctx, prop, "writer", ["-mode", "writer", "-seed", s, "-n", 100 if quick else 1000, "-reads", reads, "-sessions", sessions(ctx), "-nsess", 4])
+            # strides fitted to what TLC judges in a quarter of an hour per drive (about 15 000 trace lines a minute; measured:
+            # stride 4 / 6000 gave traces of 305 000 and 501 000 lines with 4 reads per file, three times that with 24)
+            drive(ctx, prop, "exh3", ["-mode", "exh", "-seed", s, "-chunks", 3, "-msgs", 2, "-times", 3, "-stride", 16 if prop == "C03" else 40, "-reads", reads])
+            drive(ctx, prop, "exh33", ["-mode", "exh", "-seed", s, "-chunks", 3, "-msgs", 3, "-times", 4, "-stride", 30000 if prop == "C03" else 120000, "-reads", reads])
+        drive(ctx, prop, "rand", ["-mode", "rand", "-seed", s, "-n", 80 if quick else 600, "-reads", reads])
+        drive(ctx, prop, "writer", ["-mode", "writer", "-seed", s, "-n", 100 if quick else 500, "-reads", reads, "-sessions", sessions(ctx), "-nsess", 4])
     elif prop == "C20":
         drive(ctx, prop, "overlap", ["-mode", "overlap", "-seed", s, "-n", 20 if quick else 120, "-reads", reads], replay_workers=0)
         drive(ctx, prop, "replay", ["-mode", "overlap", "-seed", s + 3, "-n", 3, "-reads", 2], replay_workers=8)
